@@ -126,6 +126,8 @@ pub struct W3Cfg {
     /// on its own time line, the stations are given origin + bus time (negative, about to cross zero,
     /// about to cross a 32-bit boundary, weeks of uptime)
     pub origin_us: i64,
+    /// every scheduled poll is followed by this many further polls at the very same instant
+    pub repoll: u8,
 }
 
 impl W3Cfg {
@@ -134,7 +136,7 @@ impl W3Cfg {
             "stations": self.stations.iter().map(|s| json!({"addr": s.addr, "join_us": s.join_us, "div": s.div, "phase3": s.phase3, "load": format!("{:?}", s.load), "crash": s.crash.map(|(t, r)| json!([t, r]))})).collect::<Vec<_>>(),
             "hsa": self.hsa, "gap": self.gap, "ttr": self.ttr, "baud": self.baud, "slot_bits": self.slot_bits,
             "stalls": self.stalls, "faults": self.faults.iter().map(|(i, f)| json!([i, format!("{:?}", f)])).collect::<Vec<_>>(),
-            "responders": self.responders, "horizon_us": self.horizon_us, "converge_by_us": self.converge_by_us, "deaf_phy": self.deaf_phy, "origin_us": self.origin_us,
+            "responders": self.responders, "horizon_us": self.horizon_us, "converge_by_us": self.converge_by_us, "deaf_phy": self.deaf_phy, "origin_us": self.origin_us, "repoll": self.repoll,
         })
     }
     pub fn from_json(v: &Value) -> W3Cfg {
@@ -194,6 +196,7 @@ impl W3Cfg {
             converge_by_us: v["converge_by_us"].as_i64().unwrap(),
             deaf_phy: v["deaf_phy"].as_bool().unwrap_or(false),
             origin_us: v["origin_us"].as_i64().unwrap_or(0),
+            repoll: v["repoll"].as_u64().unwrap_or(0) as u8,
         }
     }
     pub fn params(&self, addr: u8) -> profirust::fdl::Parameters {
@@ -427,11 +430,15 @@ impl W3Run {
         let station = &mut self.stations[i];
         let app = &mut self.apps[i];
         let bus = &mut self.bus;
+        let repoll = self.cfg.repoll;
         let r = catch(|| {
             let mut port = bus.port(i as u8);
-            station.poll(now, &mut port, app)
+            station.poll(now, &mut port, app);
+            for _ in 0..repoll {
+                station.poll(now, &mut port, app);
+            }
         });
-        self.polls += 1;
+        self.polls += 1 + repoll as u64;
         if let Err(p) = r {
             self.panic = Some(format!("{} ({}:{} {})", p.sig(), p.file, p.line, p.msg));
             return (i, true);
